@@ -19,7 +19,10 @@ generates from junction_tree.py (`Generated/JunctionTreeG.lean`).  This file
 3. composes `gen_junction_tree_construction_valid*`, `gen_mp_order_valid`, `gen_separator_axes` (C12G) with `gen_bp_marginals`,
    `gen_logZ_correct` (C01G): **`gen_exact_inference_end_to_end`** — the tables the GENERATED `belief_propagation` returns on the fields
    of the GENERATED `__init__` are `total · marginal / Z` of the product of the potentials, for every domain, clique list, form of
-   `elimination_order` and admissible behaviour of networkx / set iteration / `np.random.choice`;
+   `elimination_order` and admissible behaviour of networkx / set iteration / `np.random.choice` — **under the hypothesis
+   `hZ : partition d pots ≠ 0`** (`Z ≠ 0`): the scalar class here is the exponential-domain real one, where a potential may be 0
+   (structural zeros), and when every joint cell is 0 the real code computes `0/0`; `Z ≠ 0` is exactly what excludes it (it holds
+   automatically for potentials of the form `exp θ` with finite `θ`);
 4. corollaries: the marginal on every INPUT clique (`gen_input_clique_marginal_end_to_end`), independence of the elimination order
    and of the contract outcomes (`gen_bp_order_indep_end_to_end`), `gen_logZ_end_to_end`.
 
